@@ -174,31 +174,20 @@ Proof.
   - unfold len at 1. cbn [length]. lia.
 Qed.
 
-Lemma period_report sampled h obs :
-  fst (period sampled h obs) =
-  let d := observe_all sampled (dat h) obs in
+(* what /metrics shows for a period whose final counters are d *)
+Definition report_of (d : hdat) : report :=
   mkReport (h_count d) (h_kept d) (h_total d) (h_min d) (h_max d) (prints d)
            (if prints d then fst (hdatPercentiles d) else zeros23).
+
+Lemma extract_report h : fst (extract h) = report_of (dat h).
 Proof.
-  unfold period, period_gen, extract_gen. cbn [dat bakbuf]. fold (observe_all sampled (dat h) obs).
-  cbv zeta. destruct (prints _); [|reflexivity].
-  destruct (hdatPercentiles _) as [p b]. reflexivity.
+  unfold extract, extract_gen, report_of. destruct (prints (dat h)); [|reflexivity].
+  destruct (hdatPercentiles (dat h)) as [p b]. reflexivity.
 Qed.
 
-Lemma hist_count sampled h obs : period_start h -> obs_ok obs ->
-  let r := fst (period sampled h obs) in
-  r_count r = len obs /\ r_kept r = (if sampled then len obs / 4 else len obs) /\
-  r_total r = sumN obs mod two64 /\ r_printed r = negb (r_kept r =? 0) /\
-  (r_printed r = false -> r_pctls r = zeros23) /\ length (r_pctls r) = 23%nat.
-Proof.
-  intros Hs Ho. pose proof (period_hinv sampled h obs Hs Ho) as (Hc & Hk & Ht & _).
-  cbv zeta. rewrite period_report. cbv zeta. cbn [r_count r_kept r_total r_printed r_pctls].
-  split; [exact Hc|]. split; [exact Hk|]. split; [exact Ht|]. split; [reflexivity|].
-  split.
-  - intros Hp. rewrite Hp. reflexivity.
-  - destruct (prints _); [|reflexivity]. unfold hdatPercentiles.
-    destruct (h_kept _ =? 0); [reflexivity|]. cbn [fst]. rewrite !app_length, map_length, length_iota. reflexivity.
-Qed.
+Lemma period_report sampled h obs :
+  fst (period sampled h obs) = report_of (observe_all sampled (dat h) obs).
+Proof. unfold period, period_gen. fold extract. rewrite extract_report. reflexivity. Qed.
 
 (* every entry of hdatPercentiles, when something was kept, is min, max or a slot < min(kept,len) *)
 Lemma pctls_from d (P : N -> Prop) :
@@ -226,17 +215,74 @@ Proof.
   - repeat constructor; [exact Pmax|apply Hat; lia|apply Hat; lia].
 Qed.
 
+(* ---------- the report of a period, from the invariant alone ----------
+   (used for the sequential model below and for the interleaved model in HistConcProofs.v) *)
+Lemma report_count sampled obs d : hinv sampled obs d ->
+  let r := report_of d in
+  r_count r = len obs /\ r_kept r = (if sampled then len obs / 4 else len obs) /\
+  r_total r = sumN obs mod two64 /\ r_printed r = negb (r_kept r =? 0) /\
+  (r_printed r = false -> r_pctls r = zeros23) /\ length (r_pctls r) = 23%nat.
+Proof.
+  intros (Hc & Hk & Ht & _). cbv zeta. unfold report_of. cbn [r_count r_kept r_total r_printed r_pctls].
+  split; [exact Hc|]. split; [exact Hk|]. split; [exact Ht|]. split; [reflexivity|].
+  split.
+  - intros Hp. rewrite Hp. reflexivity.
+  - destruct (prints _); [|reflexivity]. unfold hdatPercentiles.
+    destruct (h_kept _ =? 0); [reflexivity|]. cbn [fst]. rewrite !app_length, map_length, length_iota. reflexivity.
+Qed.
+
+Lemma hinv_printed_nonempty sampled obs d : hinv sampled obs d -> prints d = true ->
+  h_kept d <> 0 /\ obs <> [].
+Proof.
+  intros (Hc & Hk & _) Hp. unfold prints in Hp. apply negb_true_iff in Hp. apply N.eqb_neq in Hp.
+  split; [exact Hp|]. intros ->. rewrite Hk in Hp. unfold kept_of, len in Hp. cbn in Hp.
+  destruct sampled; cbn in Hp; lia.
+Qed.
+
+Lemma report_member sampled obs d : hinv sampled obs d ->
+  let r := report_of d in
+  r_printed r = true -> Forall (fun p => In p obs) (r_pctls r).
+Proof.
+  intros Hi. cbv zeta. unfold report_of. cbn [r_printed r_pctls]. intros Hp. rewrite Hp.
+  destruct (hinv_printed_nonempty sampled obs d Hi Hp) as [Hk0 Hne].
+  destruct Hi as (Hc & Hk & Ht & Hmm & Hnil & Hin & Hb).
+  destruct (Hin Hne) as [Hi1 Hi2].
+  apply pctls_from; assumption.
+Qed.
+
+Lemma report_minmax sampled obs d : hinv sampled obs d ->
+  let r := report_of d in
+  r_printed r = true ->
+  (forall v, In v obs -> r_min r <= v <= r_max r) /\ In (r_min r) obs /\ In (r_max r) obs /\
+  Forall (fun p => r_min r <= p <= r_max r) (r_pctls r) /\
+  nth 0 (r_pctls r) 0 = r_min r /\ nth 20 (r_pctls r) 0 = r_max r.
+Proof.
+  intros Hi. cbv zeta. unfold report_of. cbn [r_printed r_pctls r_min r_max]. intros Hp. rewrite Hp.
+  destruct (hinv_printed_nonempty sampled obs d Hi Hp) as [Hk0 Hne].
+  destruct Hi as (Hc & Hk & Ht & Hmm & Hnil & Hin & Hb).
+  destruct (Hin Hne) as [Hi1 Hi2].
+  split; [exact Hmm|]. split; [exact Hi1|]. split; [exact Hi2|]. split.
+  - apply pctls_from; [exact Hk0|specialize (Hmm _ Hi1); lia|specialize (Hmm _ Hi2); lia|].
+    intros i H1 H2. apply Hmm. apply Hb; assumption.
+  - unfold hdatPercentiles. destruct (N.eqb_spec (h_kept d) 0); [contradiction|].
+    cbn [fst]. split; reflexivity.
+Qed.
+
+(* ---------- one goroutine ---------- *)
+Lemma hist_count sampled h obs : period_start h -> obs_ok obs ->
+  let r := fst (period sampled h obs) in
+  r_count r = len obs /\ r_kept r = (if sampled then len obs / 4 else len obs) /\
+  r_total r = sumN obs mod two64 /\ r_printed r = negb (r_kept r =? 0) /\
+  (r_printed r = false -> r_pctls r = zeros23) /\ length (r_pctls r) = 23%nat.
+Proof.
+  intros Hs Ho. rewrite period_report. apply (report_count sampled). apply period_hinv; assumption.
+Qed.
+
 Lemma hist_member sampled h obs : period_start h -> obs_ok obs ->
   let r := fst (period sampled h obs) in
   r_printed r = true -> Forall (fun p => In p obs) (r_pctls r).
 Proof.
-  intros Hs Ho. pose proof (period_hinv sampled h obs Hs Ho) as (Hc & Hk & Ht & Hmm & Hnil & Hin & Hb).
-  cbv zeta. rewrite period_report. cbv zeta. cbn [r_printed r_pctls]. intros Hp. rewrite Hp.
-  unfold prints in Hp. apply negb_true_iff in Hp. apply N.eqb_neq in Hp.
-  assert (Hne : obs <> []).
-  { intros ->. rewrite Hk in Hp. unfold kept_of, len in Hp. cbn in Hp. destruct sampled; cbn in Hp; lia. }
-  destruct (Hin Hne) as [Hi1 Hi2].
-  apply pctls_from; assumption.
+  intros Hs Ho. rewrite period_report. apply (report_member sampled). apply period_hinv; assumption.
 Qed.
 
 Lemma hist_minmax sampled h obs : period_start h -> obs_ok obs ->
@@ -246,17 +292,7 @@ Lemma hist_minmax sampled h obs : period_start h -> obs_ok obs ->
   Forall (fun p => r_min r <= p <= r_max r) (r_pctls r) /\
   nth 0 (r_pctls r) 0 = r_min r /\ nth 20 (r_pctls r) 0 = r_max r.
 Proof.
-  intros Hs Ho. pose proof (period_hinv sampled h obs Hs Ho) as (Hc & Hk & Ht & Hmm & Hnil & Hin & Hb).
-  cbv zeta. rewrite period_report. cbv zeta. cbn [r_printed r_pctls r_min r_max]. intros Hp. rewrite Hp.
-  unfold prints in Hp. apply negb_true_iff in Hp. apply N.eqb_neq in Hp.
-  assert (Hne : obs <> []).
-  { intros ->. rewrite Hk in Hp. unfold kept_of, len in Hp. cbn in Hp. destruct sampled; cbn in Hp; lia. }
-  destruct (Hin Hne) as [Hi1 Hi2].
-  split; [exact Hmm|]. split; [exact Hi1|]. split; [exact Hi2|]. split.
-  - apply pctls_from; [exact Hp|specialize (Hmm _ Hi1); lia|specialize (Hmm _ Hi2); lia|].
-    intros i H1 H2. apply Hmm. apply Hb; assumption.
-  - unfold hdatPercentiles. destruct (N.eqb_spec (h_kept (observe_all sampled (dat h) obs)) 0); [contradiction|].
-    cbn [fst]. split; reflexivity.
+  intros Hs Ho. rewrite period_report. apply (report_minmax sampled). apply period_hinv; assumption.
 Qed.
 
 (* the next period starts fresh again (on the other buffer) *)
@@ -305,3 +341,7 @@ Proof.
   - inversion Hf as [|? ? Ho Hf']; subst. rewrite periods_cons.
     constructor; [apply period_good; assumption|apply IH; [apply period_next|assumption]].
 Qed.
+
+Lemma periods_good_newHist sampled ps : Forall obs_ok ps ->
+  Forall2 (good_report sampled) ps (periods sampled newHist ps).
+Proof. apply periods_good. apply newHist_start. Qed.
